@@ -52,11 +52,12 @@ def main(tier, replay=None):
     cases = os.path.join(rd, "cases.txt")
     if replay:
         stats = {}
+        # a replay file written by this check marks its inputs with "case: " (the trace lines
+        # below them look like cases but are outputs); a plain case file (corpus) has none
+        rl = [l.strip() for l in open(replay)]
+        marked = [l[6:] for l in rl if l.startswith("case: ")]
         with open(cases, "w") as f:
-            for l in open(replay):
-                l = l.strip()
-                if l.startswith("case: "):
-                    l = l[6:]
+            for l in (marked if marked else rl):
                 if l.split(" ")[0] in KINDS:
                     f.write(l + "\n")
     else:
